@@ -377,7 +377,7 @@ func codeList(m map[int64]bool) (out []int64) {
 // ---- client side: getput.Get against simulated nodes ----------------------------------------------------------
 
 // node behaviours for a get traversal
-var c12NodeBeh = []string{"nothing", "seq1", "seq2", "forgedv", "otherkey", "noseq", "badsig", "imm", "immwrong", "seq2-notoken", "seq3-othersalt", "replay2-forged", "replay2-higher"}
+var c12NodeBeh = []string{"nothing", "seq1", "seq2", "forgedv", "otherkey", "noseq", "badsig", "imm", "immwrong", "seq2-notoken", "seq3-othersalt", "replay2-forged", "replay2-higher", "seqneg"}
 
 func c12NodeExtra(beh string) (extra sim.M, token *string) {
 	salt := []byte("s")
@@ -394,6 +394,8 @@ func c12NodeExtra(beh string) (extra sim.M, token *string) {
 		return mk(pk, bepKey1, salt, 1, "one", "one"), token
 	case "seq2":
 		return mk(pk, bepKey1, salt, 2, "two", "two"), token
+	case "seqneg":
+		return mk(pk, bepKey1, salt, -5, "neg", "neg"), token
 	case "seq2-notoken":
 		return mk(pk, bepKey1, salt, 2, "two", "two"), nil
 	case "forgedv":
@@ -506,10 +508,12 @@ func runC12Client(t *testing.T, c explore.Case) (res explore.Result) {
 				continue
 			}
 			switch b {
-			case "seq1", "seq2", "seq2-notoken":
+			case "seq1", "seq2", "seq2-notoken", "seqneg":
 				if mut {
 					s, v := int64(1), "one"
-					if b != "seq1" {
+					if b == "seqneg" {
+						s, v = -5, "neg"
+					} else if b != "seq1" {
 						s, v = 2, "two"
 					}
 					anyValid = true
@@ -577,7 +581,7 @@ func permutations(n int) (out [][]int) {
 func TestC12(t *testing.T) {
 	w := explore.NewWorker("C12")
 	defer w.Finish()
-	w.SetRule("store side: puts from a generator (immutable values of 6 shapes incl. encodings of exactly 999/1000/1001 bytes; mutable puts over 2 keys x salts of 0/1/64/65 bytes x seq 0..2 x signature in {valid, made for another salt / seq / value / key, 3 single-bit flips, zero}) sent over the wire with a fresh token and directly into bep44.Wrapper with a recording store, as singles and as all ordered pairs (quick: of a core subset; thorough: of all), each step followed by a get for every target and every value hash ever mentioned; reference: accept iff encoded value <= 1000 bytes and (immutable or (salt <= 64 bytes and ed25519 signature verifies)), rejected puts carry an applicable code of 205/206/207 and cause no Store.Put, every served value re-verifies under its target; client side: getput.Get on a mutable and an immutable target against 1-3 simulated nodes, each answering from 13 behaviours (genuine seq 1/2, forged value under a genuine signature, another key, matching key without seq, bad signature, another salt, a genuine signature replayed over another value / seq, immutable genuine / wrong hash, no token, nothing), all assignments x all reply orders (and time-outs)")
+	w.SetRule("store side: puts from a generator (immutable values of 6 shapes incl. encodings of exactly 999/1000/1001 bytes; mutable puts over 2 keys x salts of 0/1/64/65 bytes x seq 0..2 x signature in {valid, made for another salt / seq / value / key, 3 single-bit flips, zero}) sent over the wire with a fresh token and directly into bep44.Wrapper with a recording store, as singles and as all ordered pairs (quick: of a core subset; thorough: of all), each step followed by a get for every target and every value hash ever mentioned; reference: accept iff encoded value <= 1000 bytes and (immutable or (salt <= 64 bytes and ed25519 signature verifies)), rejected puts carry an applicable code of 205/206/207 and cause no Store.Put, every served value re-verifies under its target; client side: getput.Get on a mutable and an immutable target against 1-3 simulated nodes, each answering from 14 behaviours (genuine seq 1/2, forged value under a genuine signature, another key, matching key without seq, bad signature, another salt, a genuine signature replayed over another value / seq, immutable genuine / wrong hash, no token, nothing), all assignments x all reply orders (and time-outs)")
 	idx := 0
 	do := func(unit string, h []string) {
 		c := explore.Case{Prop: "C12", Unit: unit, H: h}
